@@ -378,8 +378,10 @@ FlagsTruthful == (0 \in gapW \/ TRUE \in doneW) => Gap(store.len) = 0
 CompleteOrExhausted ==
   mpc \in {"m_final", "m_done"} => (Gap(store.len) = 0 \/ sieved = NTasks * PolysPerTask)
 
-\* the panic of siqs.rs:164 means a real shortage of relations
-NoSpuriousPanic == mpc = "m_panic" => Gap(store.len) # 0
+\* the panic of siqs.rs:164 means a real shortage of relations - or, at worst, that the whole supply of
+\* polynomials was sieved without any completion check seeing the last relations arrive (the target is
+\* set Slack beyond the need; this corner is the same with one thread and is not a scheduling matter)
+NoSpuriousPanic == mpc = "m_panic" => (Gap(store.len) # 0 \/ (TRUE \notin doneW /\ sieved = NTasks * PolysPerTask))
 \* what the code guarantees when Need <= FB is possible: a panic with enough relations needs a stale gap
 PanicOnlyIfShortOrStale == mpc = "m_panic" => (Gap(store.len) # 0 \/ (gapLast # Gap(store.len) /\ 0 \in gapW))
 
